@@ -128,6 +128,47 @@ pub fn eval(op: &str, input: &mut Value) -> OpResult {
       input["values"] = Value::Array(values);
       Ok(json!({"canon": out}))
     }
+    "cache.best_name" => {
+      use crate::generator::naming::name_index::{compute_best_name, is_valid_common_name, longest_common_suffix};
+      let cands: BTreeSet<(String, bool)> = input["cands"]
+        .as_array()
+        .ok_or("no cands")?
+        .iter()
+        .filter_map(|p| Some((p.get(0)?.as_str()?.to_string(), p.get(1)?.as_bool()?)))
+        .collect();
+      let used: BTreeSet<String> = str_list(&input["used"]).into_iter().collect();
+      let names: Vec<&String> = cands.iter().map(|(n, _)| n).collect();
+      let lcs = longest_common_suffix(&names);
+      let upper: String = {
+        let mut v: Vec<char> = cands.iter().flat_map(|(n, _)| n.chars()).filter(|c| c.is_uppercase()).collect();
+        v.sort_unstable();
+        v.dedup();
+        v.into_iter().collect()
+      };
+      input["upper"] = Value::String(upper);
+      Ok(json!({"best": compute_best_name(&cands, &used), "lcs": lcs, "valid": is_valid_common_name(&lcs)}))
+    }
+    "cache.name_scan" => {
+      use crate::generator::naming::name_index::TypeNameIndex;
+      let spec = empty_spec(input.get("schemas"))?;
+      let mut schemas: BTreeMap<String, ObjectSchema> = BTreeMap::new();
+      if let Some(c) = &spec.components {
+        for (k, v) in &c.schemas {
+          if let oas3::spec::ObjectOrReference::Object(o) = v {
+            schemas.insert(k.clone(), o.clone());
+          }
+        }
+      }
+      let res = TypeNameIndex::new(&schemas, &spec).scan_and_compute_names().map_err(|e| format!("scan: {e:#}"))?;
+      let mut names = vec![];
+      for (k, v) in &res.names {
+        let d = format!("{k:?}");
+        let inner = d.strip_prefix("CanonicalSchema(\"").and_then(|r| r.strip_suffix("\")")).ok_or("debug shape")?;
+        names.push(json!([unescape_debug(inner), v]));
+      }
+      let enum_names: Vec<Value> = res.enum_names.iter().map(|(k, v)| json!([k, v])).collect();
+      Ok(json!({"names": names, "enum_names": enum_names}))
+    }
     "cache.enum_key" => {
       let schemas = input["schemas"].as_array().cloned().ok_or("no schemas")?;
       let spec = empty_spec(input.get("env"))?;
